@@ -6,10 +6,14 @@
                              (any reader kind, any end-of-input behaviour, any bytes: ill-formed input fails alike; the bound is on the
                               digits of the integer and fraction parts the parser would read)
      C07_f32_glue_spec       the literal-level form, in the vocabulary of Proofs/LexGlue.v (numlit, num_ok, fw, size bound on the literal)
-     C07_f32_glue_value      ... spelled out: which arguments reach lexical for a float-syntax literal is irrelevant, the result is
-                             the oracle's value of (lit_value n), sign applied after widening, NumberOutOfRange iff it is infinite
      deserialize_f32_glue    Model/DeTyped.deserialize_f32 (the f32 request of the typed model) = the same request with the algorithm in it
-     from_input_typed_f32_glue   ... for a whole input of type f32
+     from_input_typed_f32_glue / de_typed_f32_glue   ... for a whole input of type f32 / at any f32 leaf
+     lex_glue32              the binary32 twin of LexGlue.lex_glue: which value NumF32's parser returns on a literal
+                             (integer that fits u64: three-way answer; otherwise the oracle rne_decimal32 on a pair denoting the literal's value)
+     C07_f32_model           the property for f32 targets, on the GLUE: nearest binary32 (ties to even) of the literal's exact real value,
+                             widened; -0.0 / underflow to +-0; NumberOutOfRange iff that nearest binary32 is infinite
+     C07_f32_model_negint    negative integers beyond i64 (the path of finding F17): -(n rounded ONCE to binary32), widened
+     visit_f32_widened       serde's `as f32` in the f32 visitor recovers exactly the binary32 the glue widened
 
    Method: the two parsers are one generic parser (LexF32Glue.Gen) with different float back ends; they can only differ
    where a back end is called, and at every call site the arguments are shown to satisfy the preconditions of the
@@ -330,3 +334,606 @@ Proof using All.
     + apply number_agree; [exact Hsg|]. rewrite Hr, (Hfull eq_refl). lia.
 Qed.
 End Agree.
+
+(* ================================================================================================ *)
+(** * 3. the glue is the specification *)
+
+(* on EVERY input (no well-formedness, any reader, any end-of-input behaviour) *)
+Theorem parse_integer_glue : forall (E : env) (positive : bool) (s : st), (numspan (rest s) <= 100000000)%Z ->
+  parse_integer_a E positive s = parse_integer_s E positive s.
+Proof.
+  intros E positive s H. rewrite <- parse_integer_g_spec. unfold parse_integer_a.
+  apply integer_agree; [| | |exact H].
+  - intros E0 p0 sig e s0 Hsig. apply short_agree. exact Hsig.
+  - intros E0 p0 i f e s0 Hok. apply long_agree. exact Hok.
+  - intros sig Hsig. apply negint_agree. exact Hsig.
+Qed.
+
+(* ---- the bound, for a literal and for a whole input ---- *)
+Lemma numspan_le_length : forall l, (numspan l <= zlen l)%Z.
+Proof.
+  intros [|c l]; [cbn; lia|]. unfold numspan. cbn [tl length].
+  pose proof (span_le_length l) as H1.
+  assert (H2 : (fsp (skipn (dspan l) l) <= zlen (skipn (dspan l) l))%Z).
+  { unfold fsp. destruct (skipn (dspan l) l) as [|c0 l2]; [cbn [length]; lia|].
+    destruct (c0 =? 46); [pose proof (span_le_length l2); cbn [length]; lia|cbn [length]; lia]. }
+  rewrite skipn_length in H2. lia.
+Qed.
+
+Lemma fsp_nodot : forall r, (hd 0 r =? 46) = false -> fsp r = 0%Z.
+Proof. intros [|x r] H; [reflexivity|]. cbn [hd] in H. unfold fsp. rewrite H. reflexivity. Qed.
+
+Lemma numspan_lit : forall n r, num_ok n = true -> fw n r -> (numspan (render_abs n ++ r) <= zlen (render_abs n))%Z.
+Proof.
+  intros n r Hok (Hr & Hfe & Hf46). destruct (num_ok_inv n Hok) as (Hint & Hf & Hx).
+  rewrite lit_app, lit_len.
+  set (tail := fracl (nfrac n) ++ expl (nexp n) ++ r).
+  assert (Ht : nd tail /\ (fsp tail <= zlen (fracl (nfrac n)))%Z).
+  { unfold tail. destruct (nfrac n) as [f|] eqn:Hfr; cbn [fracl frac_wf app] in *.
+    - destruct Hf as (Hfd & _). split; [apply nd_dot|].
+      assert (Hnd : nd (expl (nexp n) ++ r)).
+      { destruct (nexp n) as [[[e sg] ds]|]; cbn [expl exp_wf app] in *; [|exact Hr].
+        destruct Hx as (He & _). apply nd_e. exact He. }
+      unfold fsp. change (46 =? 46) with true. cbv iota. rewrite (span_app f _ Hfd Hnd). cbn [length]. lia.
+    - destruct (nexp n) as [[[e sg] ds]|] eqn:Hex; cbn [expl exp_wf app] in *.
+      + destruct Hx as (He & _). split; [apply nd_e; exact He|].
+        unfold fsp. rewrite (e_not_dot e He). cbn [length]. lia.
+      + split; [exact Hr|]. rewrite (fsp_nodot r (Hf46 eq_refl eq_refl)). cbn [length]. lia. }
+  destruct Ht as (Hnd & Hfs). fold tail.
+  destruct (int_ok_inv (nint n) Hint) as [->|(c & ds & -> & Hc & Hd)].
+  - unfold numspan. cbn [app tl length]. rewrite (span_nd tail Hnd). cbn [skipn]. lia.
+  - unfold numspan. cbn [app tl length]. rewrite (span_app ds tail Hd Hnd), skipn_app_l. lia.
+Qed.
+
+(* ---- literal level, in the vocabulary of Proofs/LexGlue.v: a well-formed number literal followed by any bytes that do not
+        continue it ([fw]; e.g. nothing, a delimiter, whitespace).  No assumption on the reader or the configuration: the
+        single-precision functions do not look at it ---- *)
+Theorem C07_f32_glue_spec : forall (E : env) (n : numlit) (positive : bool) (r : bytes) (o : nat) (p : bool) (d : N),
+  num_ok n = true -> fw n r -> (length (render_abs n) < 100000000)%nat ->
+  parse_integer_a E positive (mkSt (render_abs n ++ r) o p d) = parse_integer_s E positive (mkSt (render_abs n ++ r) o p d).
+Proof.
+  intros E n positive r o p d Hok Hfw Hlen. apply parse_integer_glue. cbn [rest].
+  apply Nat2Z.inj_lt in Hlen. rewrite big_nat in Hlen.
+  pose proof (numspan_lit n r Hok Hfw). lia.
+Qed.
+
+(* ---- Model/DeTyped.v: the f32 request ---- *)
+Lemma pw_rest : forall E s o s1, parse_whitespace E s = Ok (o, s1) -> exists k, rest s1 = skipn k (rest s).
+Proof.
+  intros E s o s1 H. unfold parse_whitespace in H. set (k := span_len is_ws (rest s)) in *.
+  exists k. unfold peek in H. cbn [advance rest] in H.
+  destruct (skipn k (rest s)) as [|b r] eqn:Hk.
+  - unfold at_end in H. destruct (tm E); [|discriminate H]. injection H as _ <-. reflexivity.
+  - injection H as _ <-. reflexivity.
+Qed.
+
+Lemma numspan_skipn : forall l k, (zlen l <= 100000000)%Z -> (numspan (skipn k l) <= 100000000)%Z.
+Proof.
+  intros l k H. pose proof (numspan_le_length (skipn k l)) as H1. rewrite skipn_length in H1. lia.
+Qed.
+
+Theorem deserialize_number_glue : forall (E : env) visit (s : st), (zlen (rest s) <= 100000000)%Z ->
+  deserialize_number_a E visit s = deserialize_number_s E visit s.
+Proof.
+  intros E visit s Hlen. unfold deserialize_number_a, deserialize_number_s.
+  destruct (parse_whitespace E s) as [[o s1]|c i| |] eqn:Hpw; cbn [lift tbind]; try reflexivity.
+  destruct o as [b|]; [|reflexivity].
+  destruct (pw_rest E s _ s1 Hpw) as (k & Hk).
+  destruct (b =? 45).
+  - rewrite parse_integer_glue; [reflexivity|]. cbn [discard rest]. rewrite Hk.
+    change (tl (skipn k (rest s))) with (skipn 1 (skipn k (rest s))). rewrite skipn_add. apply numspan_skipn. exact Hlen.
+  - destruct (is_digit b); [|reflexivity].
+    rewrite parse_integer_glue; [reflexivity|]. rewrite Hk. apply numspan_skipn. exact Hlen.
+Qed.
+
+(* the value DeTyped's f32 path assigns (specification inside) is what the glue computes (algorithm inside) *)
+Theorem deserialize_f32_glue : forall (E : env) (s : st), (zlen (rest s) <= 100000000)%Z ->
+  deserialize_f32_a E s = deserialize_f32 E s.
+Proof.
+  intros E s Hlen. unfold deserialize_f32_a, deserialize_f32.
+  destruct (float_roundtrip (cf E)); [apply deserialize_number_glue; exact Hlen|reflexivity].
+Qed.
+
+(* a whole input of type f32: from_str / from_slice / from_reader ::<f32> *)
+Definition from_input_f32_a (E : env) (input : bytes) : tres dval :=
+  let+ (d, s1) := deserialize_f32_a E (init_st input) in
+  let^ _ := de_end E s1 in
+  TOk d.
+
+Theorem from_input_typed_f32_glue : forall (E : env) (input : bytes), (zlen input <= 100000000)%Z ->
+  from_input_typed E TF32 input = from_input_f32_a E input.
+Proof.
+  intros E input Hlen. unfold from_input_typed, from_input_f32_a.
+  replace (typed_fuel TF32 input) with (S (Nat.pred (typed_fuel TF32 input))) by (unfold typed_fuel; lia).
+  cbn [de_typed]. rewrite deserialize_f32_glue by exact Hlen. reflexivity.
+Qed.
+
+(* and at any f32 leaf of a typed deserialization (the recursion of de_typed reaches deserialize_f32 with some state) *)
+Theorem de_typed_f32_glue : forall (fuel : nat) (E : env) (s : st), (zlen (rest s) <= 100000000)%Z ->
+  de_typed (S fuel) E TF32 s = deserialize_f32_a E s.
+Proof. intros fuel E s Hlen. cbn [de_typed]. symmetry. apply deserialize_f32_glue. exact Hlen. Qed.
+
+(* ================================================================================================ *)
+(** * 4. what the single-precision parser returns on a literal: the binary32 twin of LexGlue.lex_glue
+      (Proofs/LexGlue.v sections (3)-(6) replayed for the _s functions of Model/NumF32.v; the digit-string lemmas and the
+       continuations k1 / k2 with their denoted pairs are those of LexGlue.v, they do not depend on the float format) *)
+From SJ Require Import Proofs.TypedRoundtripF32.
+
+(* what the parser must return for a float-syntax (or too large) literal: None = NumberOutOfRange *)
+Definition glue_float32 (positive : bool) (m e : Z) : option b64 :=
+  let f := NumF32.rne_decimal32 m e in
+  if b32_is_inf f then None else Some (let w := b64_of_b32 f in if positive then w else b64_neg w).
+
+Lemma rne32_nonpos : forall m e, (m <= 0)%Z -> NumF32.rne_decimal32 m e = B754_zero false.
+Proof. intros m e H. unfold NumF32.rne_decimal32. destruct (Z.leb_spec m 0); [reflexivity|lia]. Qed.
+
+Lemma rne_decimal32_sat : forall m e, (Z.log2 m < 2000000000)%Z ->
+  NumF32.rne_decimal32 m (i32_sat e) = NumF32.rne_decimal32 m e.
+Proof.
+  intros m e Hl. destruct (Z.leb_spec m 0) as [Hm|Hm].
+  - rewrite !rne32_nonpos by exact Hm. reflexivity.
+  - unfold i32_sat. destruct (Z.ltb_spec 2147483647 e) as [Hbig|Hbig].
+    + change NumF32.rne_decimal32 with Lex.rne_decimal32. rewrite (rne32_huge m e Hm) by lia. apply rne32_huge; [exact Hm|lia].
+    + destruct (Z.ltb_spec e (-2147483648)) as [Hsm|Hsm].
+      * change NumF32.rne_decimal32 with Lex.rne_decimal32. rewrite (rne32_tiny m e Hm) by lia. apply rne32_tiny; [exact Hm|lia].
+      * f_equal. lia.
+Qed.
+
+Definition gl32 (positive : bool) (m e : Z) (run : res (b64 * st)) (se : st) : Prop :=
+  match glue_float32 positive m e with
+  | Some f => run = Ok (f, se)
+  | None => exists i, run = Err NumberOutOfRange i
+  end.
+Definition glp32 (positive : bool) (m e : Z) (run : res (pnum * st)) (se : st) : Prop :=
+  match glue_float32 positive m e with
+  | Some f => run = Ok (PF64 f, se)
+  | None => exists i, run = Err NumberOutOfRange i
+  end.
+
+Lemma gl32_wrapF : forall positive m e run se, gl32 positive m e run se -> glp32 positive m e (wrapF run) se.
+Proof.
+  intros positive m e run se H. unfold gl32, glp32 in *. destruct (glue_float32 positive m e) as [f|].
+  - rewrite H. reflexivity.
+  - destruct H as [i ->]. exists i. reflexivity.
+Qed.
+
+Lemma gl32_zero : forall (positive : bool) m e (run : res (b64 * st)) s, NumF32.rne_decimal32 m e = B754_zero false ->
+  run = Ok (if positive then B754_zero false else B754_zero true, s) -> gl32 positive m e run s.
+Proof.
+  intros positive m e run s Hz ->. unfold gl32, glue_float32. cbv zeta. rewrite Hz. cbn [b32_is_inf b64_of_b32].
+  destruct positive; reflexivity.
+Qed.
+
+Lemma gl32_inf : forall positive m e i s, NumF32.rne_decimal32 m e = B754_infinity false ->
+  gl32 positive m e (Err NumberOutOfRange i) s.
+Proof.
+  intros positive m e i s Hz. unfold gl32, glue_float32. cbv zeta. rewrite Hz. cbn [b32_is_inf]. exists i. reflexivity.
+Qed.
+
+Lemma glp32_st : forall positive m e run se se', glp32 positive m e run se -> se = se' -> glp32 positive m e run se'.
+Proof. intros positive m e run se se' H <-. exact H. Qed.
+
+Section Glue32.
+Variable E : env.
+Hypothesis HE : tm E = TEof.
+
+Lemma f64_from_parts_s_gl : forall positive sg e e' s,
+  NumF32.rne_decimal32 (Z.of_N sg) e = NumF32.rne_decimal32 (Z.of_N sg) e' ->
+  gl32 positive (Z.of_N sg) e' (f64_from_parts_s E positive sg e s) s.
+Proof using Type.
+  intros positive sg e e' s Heq. unfold gl32, glue_float32, f64_from_parts_s, finish_s. cbv zeta. rewrite Heq.
+  destruct (b32_is_inf (NumF32.rne_decimal32 (Z.of_N sg) e')).
+  - unfold peek_error. eexists. reflexivity.
+  - reflexivity.
+Qed.
+
+Lemma f64_long_s_gl : forall positive i f x e' s,
+  e' = (x - Z.of_nat (length (strip_trailing_zeros f)))%Z ->
+  gl32 positive (digits_val (i ++ strip_trailing_zeros f) 0) e' (f64_long_from_parts_s E positive i f x s) s.
+Proof using Type.
+  intros positive i f x e' s ->. unfold gl32, glue_float32, f64_long_from_parts_s, finish_s. cbv zeta.
+  destruct (b32_is_inf _).
+  - unfold peek_error. eexists. reflexivity.
+  - reflexivity.
+Qed.
+
+Lemma after_exp_val32 : forall positive z K e sg c1 ds r off p d (m eb : Z),
+  sg_ok sg -> is_digit c1 = true -> digs ds -> nd r ->
+  (0 <= m)%Z -> (Z.log2 m < 500000000)%Z -> (-100000000 < eb <= 0)%Z ->
+  (z = true -> m = 0%Z) -> (z = false -> (0 < m)%Z) ->
+  (forall s, gl32 positive m (eb + exp_value (Some (e, sg, c1 :: ds))) (K (pexp sg) (nval ds (digit_val c1)) s) s) ->
+  gl32 positive m (eb + exp_value (Some (e, sg, c1 :: ds)))
+     (after_exp E positive z K (mkSt (e :: sgl sg ++ c1 :: ds ++ r) off p d))
+     (pkd r (off + (2 + length (sgl sg) + length ds)) d).
+Proof using HE.
+  intros positive z K e sg c1 ds r off p d m eb Hsg Hc1 Hd Hr Hm0 Hlog Heb Hz1 Hz0 HK.
+  destruct (exp_loop ds (digit_val c1)) as [[n ex] ov] eqn:Hel.
+  destruct (exp_loop_val _ _ _ _ _ Hd Hel) as (Hn & Hfull & Hov).
+  unfold after_exp. rewrite (exponent_front_good E HE e sg c1 ds r off p d Hsg Hc1 Hd Hr), Hel. cbn [bind]. cbv beta iota.
+  destruct ov.
+  - specialize (Hov eq_refl). unfold i32_max in Hov.
+    assert (Hskip : skip_digits E (mkSt (skipn n ds ++ r) (off + (2 + length (sgl sg) + n)) false d)
+                    = Ok (hd 0 r, pkd r (off + (2 + length (sgl sg) + length ds)) d)).
+    { rewrite (skip_digits_mk E HE (skipn n ds) r _ _ _ (digs_skipn n ds Hd) Hr). rewrite skipn_length.
+      do 2 f_equal. apply pkd_off. lia. }
+    unfold parse_exponent_overflow. rewrite exp_value_eq.
+    destruct z; cbn [negb andb].
+    + rewrite (Hz1 eq_refl). apply gl32_zero; [apply rne32_nonpos; lia|].
+      rewrite Hskip. reflexivity.
+    + specialize (Hz0 eq_refl). destruct (pexp sg).
+      * unfold error. apply gl32_inf. change NumF32.rne_decimal32 with Lex.rne_decimal32. apply rne32_huge; [exact Hz0|lia].
+      * apply gl32_zero; [change NumF32.rne_decimal32 with Lex.rne_decimal32; apply rne32_tiny; [exact Hz0|lia]|].
+        rewrite Hskip. reflexivity.
+  - destruct (Hfull eq_refl) as (-> & ->).
+    rewrite skipn_all. cbn [app]. rewrite (peek_or_null_mk E HE). cbn [bind]. cbv beta iota. apply HK.
+Qed.
+
+Lemma k2_exp_val32 : forall positive k e sg c1 ds r off d,
+  k2_good k -> is_e e = true -> sg_ok sg -> is_digit c1 = true -> digs ds -> nd r ->
+  gl32 positive (fst (k2_wit k)) (snd (k2_wit k) + exp_value (Some (e, sg, c1 :: ds)))
+     (run_k2s E positive k (pkd (e :: sgl sg ++ c1 :: ds ++ r) off d))
+     (pkd r (off + (2 + length (sgl sg) + length ds)) d).
+Proof using HE.
+  intros positive k e sg c1 ds r off d Hk He Hsg Hc1 Hd Hr.
+  destruct (k2_facts k Hk) as (H0 & Hlog & Hsnd & Hz1 & Hz0 & _).
+  unfold run_k2s. cbv zeta. rewrite rest_pkd. cbn [hd]. rewrite He.
+  destruct k as [sg0 e0|i f]; cbn [k2_wit k2_zero fst snd] in *.
+  - rewrite (parse_exponent_s_eq E). apply after_exp_val32; try assumption.
+    intros s. apply f64_from_parts_s_gl. rewrite exp_value_eq.
+    destruct Hk as (Hsg0 & _). pose proof (log2_u64 sg0 Hsg0).
+    destruct (pexp sg).
+    + apply rne_decimal32_sat. lia.
+    + replace (e0 + - Z.of_N (nval ds (digit_val c1)))%Z with (e0 - Z.of_N (nval ds (digit_val c1)))%Z by lia.
+      apply rne_decimal32_sat. lia.
+  - rewrite (parse_long_exponent_s_eq E). apply after_exp_val32; try assumption.
+    intros s. apply f64_long_s_gl. rewrite exp_value_eq. destruct (pexp sg); lia.
+Qed.
+
+Lemma k2_fin_val32 : forall positive k r off d,
+  k2_good k -> is_e (hd 0 r) = false ->
+  gl32 positive (fst (k2_wit k)) (snd (k2_wit k)) (run_k2s E positive k (pkd r off d)) (pkd r off d).
+Proof using Type.
+  intros positive k r off d Hk He. unfold run_k2s. cbv zeta. rewrite rest_pkd, He.
+  destruct k as [sg0 e0|i f]; cbn [k2_wit fst snd].
+  - apply f64_from_parts_s_gl. reflexivity.
+  - apply f64_long_s_gl. lia.
+Qed.
+
+Lemma parse_decimal_overflow_val32 : forall positive sg e ds2, sg <= u64_max -> (e <= 0)%Z ->
+  exists I F0, digs (I ++ F0) /\ nval (I ++ F0) 0 = sg /\ length F0 = Z.to_nat (- e) /\
+    forall r o p d, digs ds2 -> ds2 <> [] -> nd r ->
+      parse_decimal_overflow_s E positive sg e (mkSt (ds2 ++ r) o p d)
+      = run_k2s E positive (K2l I (F0 ++ ds2)) (pkd r (o + length ds2) d).
+Proof using HE.
+  intros positive sg e ds2 Hsg He. destruct (itoa_val sg Hsg) as (Hsd & Hsv).
+  set (fd := Z.to_nat (- e)).
+  set (zs := if Nat.leb (S (length (itoa sg))) fd then repeat 48 (S (fd - S (length (itoa sg)))) else []).
+  set (scratch := zs ++ itoa sg).
+  set (ie := (length scratch - fd)%nat).
+  assert (Hzs : allz zs).
+  { unfold zs. destruct (Nat.leb _ _); [apply allz_repeat|intros x []]. }
+  assert (Hlen : (fd <= length scratch)%nat).
+  { unfold scratch, zs. rewrite app_length. destruct (Nat.leb_spec (S (length (itoa sg))) fd) as [Hle|Hgt].
+    - rewrite repeat_length. lia.
+    - cbn [length]. lia. }
+  exists (firstn ie scratch), (skipn ie scratch). rewrite firstn_skipn. split; [|split; [|split]].
+  - unfold scratch. apply digs_app. split; [apply allz_digs, Hzs|exact Hsd].
+  - unfold scratch. rewrite nval_app2, (nval_zeros zs 0 Hzs), N.mul_0_l. exact Hsv.
+  - rewrite skipn_length. unfold ie. lia.
+  - intros r o p d Hd Hne Hr. unfold parse_decimal_overflow_s. cbv zeta.
+    apply (parse_long_decimal_s_good E HE); try assumption.
+    intros Hnil. apply app_eq_nil in Hnil. apply Hne, Hnil.
+Qed.
+
+Lemma parse_decimal_val32 : forall positive sg f r o p d, sg <= u64_max -> digs f -> f <> [] -> nd r ->
+  (Z.of_nat (length f) < 100000000)%Z ->
+  (exists L, (Z.of_nat L < 100000000)%Z /\ nval f sg < 10 ^ N.of_nat L) ->
+  exists k', k2_good k' /\ k2_lit k' = (Z.of_N (nval f sg), (- Z.of_nat (length f))%Z) /\
+    parse_decimal_s E positive sg 0 (mkSt (46 :: f ++ r) o p d) = run_k2s E positive k' (pkd r (o + S (length f)) d).
+Proof using HE.
+  intros positive sg f r o p d Hsg Hd Hne Hr Hlen HL.
+  destruct (sig_loop f sg) as [[n sg'] ov] eqn:Hsl.
+  destruct (sig_loop_val _ _ _ _ _ Hd Hsg Hsl) as (Hv & Hsg' & Hn & Hfull & Hpart).
+  destruct ov.
+  - destruct (Hpart eq_refl) as (Hlt & _).
+    assert (He : (0 + - Z.of_nat n <= 0)%Z) by lia.
+    destruct (parse_decimal_overflow_val32 positive sg' (0 + - Z.of_nat n) (skipn n f) Hsg' He)
+      as (I & F0 & HdIF & HvIF & HlF & Hrun).
+    apply digs_app in HdIF. destruct HdIF as (HdI & HdF).
+    assert (HlF' : length F0 = n) by lia.
+    assert (Hval : nval (I ++ F0 ++ skipn n f) 0 = nval f sg).
+    { rewrite app_assoc, nval_app2, HvIF, Hv, <- nval_app2, firstn_skipn. reflexivity. }
+    assert (Hlen2 : length (F0 ++ skipn n f) = length f).
+    { rewrite app_length, skipn_length. lia. }
+    exists (K2l I (F0 ++ skipn n f)). split; [|split].
+    + cbn [k2_good]. split; [exact HdI|]. split; [apply digs_app; split; [exact HdF|apply digs_skipn, Hd]|].
+      split; [rewrite Hlen2; exact Hlen|]. destruct HL as (L & HL1 & HL2). exists L. split; [exact HL1|].
+      rewrite Hval. exact HL2.
+    + cbn [k2_lit]. rewrite digits_val_N, Hval, Hlen2. reflexivity.
+    + unfold parse_decimal_s. rewrite discard_mk. cbn [tl rest]. rewrite (sig_loop_app f r sg Hr), Hsl.
+      rewrite advance_mk, (skipn_app_le n f r Hn), (peek_or_null_mk E HE). cbn [bind]. cbv beta iota.
+      unfold pkd at 1. rewrite (Hrun r _ _ d (digs_skipn n f Hd) (skipn_len_lt_nonnil n f Hlt) Hr).
+      rewrite skipn_length. do 2 f_equal. lia.
+  - specialize (Hfull eq_refl). subst n. rewrite firstn_all in Hv. subst sg'.
+    exists (K2s (nval f sg) (0 + - Z.of_nat (length f))). split; [|split].
+    + cbn [k2_good]. split; [exact Hsg'|]. lia.
+    + reflexivity.
+    + unfold parse_decimal_s. rewrite discard_mk. cbn [tl rest]. rewrite (sig_loop_app f r sg Hr), Hsl.
+      rewrite advance_mk, skipn_app_l, (peek_or_null_mk E HE). cbn [bind]. cbv beta iota.
+      destruct f as [|c0 f0]; [exfalso; apply Hne; reflexivity|]. cbn [length Nat.eqb].
+      unfold run_k2s. cbv zeta. rewrite rest_pkd.
+      replace (S o + S (length f0))%nat with (o + S (S (length f0)))%nat by lia. reflexivity.
+Qed.
+
+Lemma parse_integer_val32 : forall positive int r o p d, int_ok int = true -> nd r ->
+  parse_integer_s E positive (mkSt (int ++ r) o p d) = run_k1s E positive (k1_of int) (pkd r (o + length int) d).
+Proof using HE.
+  intros positive int r o p d Hint Hr. destruct (int_ok_inv int Hint) as [->|(c & ds & -> & Hc & Hd)].
+  - change (k1_of [48]) with (K1n 0). unfold parse_integer_s. cbn [app].
+    rewrite (next_cons E). cbn [bind]. cbv beta iota. change (48 =? 48) with true. cbv iota.
+    rewrite (peek_or_null_mk E HE). cbn [bind]. cbv beta iota. rewrite Hr. cbn [length].
+    replace (o + 1)%nat with (S o) by lia. reflexivity.
+  - destruct (digit19_digit c Hc) as (Hcd & Hc48).
+    assert (Hdv : digit_val c <= u64_max).
+    { unfold digit_val, u64_max. unfold is_digit in Hcd. lia. }
+    destruct (sig_loop ds (digit_val c)) as [[n sg] ov] eqn:Hsl.
+    destruct (sig_loop_val _ _ _ _ _ Hd Hdv Hsl) as (Hv & Hsg & Hn & Hfull & Hpart).
+    unfold parse_integer_s. cbn [app].
+    rewrite (next_cons E). cbn [bind]. cbv beta iota. rewrite Hc48, Hc. cbn [rest].
+    rewrite (sig_loop_app ds r _ Hr), Hsl, advance_mk.
+    destruct ov.
+    + destruct (Hpart eq_refl) as (Hlt & Hbig).
+      assert (Hk : k1_of (c :: ds) = K1f (c :: ds)).
+      { unfold k1_of. rewrite nval_head. destruct (N.leb_spec (nval ds (digit_val c)) u64_max); [lia|reflexivity]. }
+      assert (Hito : itoa sg = c :: firstn n ds).
+      { rewrite Hv, <- nval_head. apply itoa_canon.
+        - rewrite int_ok_eq, Hc48, Hc. cbn [andb]. apply digs_firstn, Hd.
+        - rewrite nval_head, <- Hv. exact Hsg. }
+      rewrite Hk, (skipn_app_le n ds r Hn), (peek_or_null_mk E HE). cbn [bind]. cbv beta iota.
+      unfold pkd at 1. change (let* (f, s3) := ?x in Ok (PF64 f, s3)) with (wrapF x). f_equal.
+      unfold parse_long_integer_s. cbn [rest]. cbv zeta.
+      rewrite (span_app (skipn n ds) r (digs_skipn n ds Hd) Hr), firstn_app_l, advance_mk, skipn_app_l,
+        (peek_or_null_mk E HE). cbn [bind]. cbv beta iota.
+      rewrite Hito. cbn [app]. rewrite firstn_skipn. rewrite skipn_length. cbn [length].
+      replace (S o + n + (length ds - n))%nat with (o + S (length ds))%nat by lia.
+      reflexivity.
+    + specialize (Hfull eq_refl). subst n. rewrite firstn_all in Hv.
+      assert (Hk : k1_of (c :: ds) = K1n sg).
+      { unfold k1_of. rewrite nval_head, <- Hv. destruct (N.leb_spec sg u64_max); [reflexivity|lia]. }
+      rewrite Hk, skipn_app_l, (peek_or_null_mk E HE). cbn [bind]. cbv beta iota.
+      cbn [length run_k1s]. replace (S o + length ds)%nat with (o + S (length ds))%nat by lia. reflexivity.
+Qed.
+
+Lemma k1_dec_val32 : forall positive int f r o d, int_ok int = true -> digs f -> f <> [] -> nd r ->
+  (Z.of_nat (length (int ++ f)) < 100000000)%Z ->
+  exists k', k2_good k' /\ k2_lit k' = (digits_val (int ++ f) 0, (- Z.of_nat (length f))%Z) /\
+    run_k1s E positive (k1_of int) (pkd (46 :: f ++ r) o d) = wrapF (run_k2s E positive k' (pkd r (o + S (length f)) d)).
+Proof using HE.
+  intros positive int f r o d Hint Hd Hne Hr Hlen.
+  pose proof (int_ok_digs int Hint) as Hdi.
+  assert (HL : nval (int ++ f) 0 < 10 ^ N.of_nat (length (int ++ f))).
+  { pose proof (nval_lt (int ++ f) 0 (proj2 (digs_app int f) (conj Hdi Hd))) as H. lia. }
+  assert (Hlf : (Z.of_nat (length f) < 100000000)%Z) by (rewrite app_length in Hlen; lia).
+  unfold k1_of. destruct (N.leb_spec (nval int 0) u64_max) as [Hle|Hgt].
+  - destruct (parse_decimal_val32 positive (nval int 0) f r o (nonempty (46 :: f ++ r)) d Hle Hd Hne Hr Hlf)
+      as (k' & Hk' & Hlit & Hrun).
+    { exists (length (int ++ f)). split; [exact Hlen|]. rewrite <- nval_app2. exact HL. }
+    exists k'. split; [exact Hk'|]. split.
+    + rewrite Hlit, digits_val_N, nval_app2. reflexivity.
+    + unfold run_k1s. rewrite (parse_number_s_unfold E HE). cbv zeta. cbn [hd].
+      change (46 =? 46) with true. cbv iota. unfold pkd at 1. rewrite Hrun. reflexivity.
+  - exists (K2l int f). split; [|split].
+    + cbn [k2_good]. split; [exact Hdi|]. split; [exact Hd|]. split; [exact Hlf|].
+      exists (length (int ++ f)). split; assumption.
+    + reflexivity.
+    + unfold run_k1s. cbv zeta. rewrite rest_pkd. cbn [hd].
+      change (46 =? 46) with true. cbv iota. unfold pkd at 1. rewrite discard_mk. cbn [tl].
+      rewrite (parse_long_decimal_s_good E HE positive int [] f r _ _ d Hd Hr Hne). cbn [app].
+      replace (S o + length f)%nat with (o + S (length f))%nat by lia. reflexivity.
+Qed.
+
+Lemma k1_fin_val32 : forall positive int r off d, (hd 0 r =? 46) = false -> is_e (hd 0 r) = false ->
+  if nval int 0 <=? u64_max then
+    run_k1s E positive (k1_of int) (pkd r off d) =
+    Ok (if positive then PU64 (nval int 0) else neg_small_s (nval int 0), pkd r off d)
+  else glp32 positive (digits_val int 0) 0 (run_k1s E positive (k1_of int) (pkd r off d)) (pkd r off d).
+Proof using HE.
+  intros positive int r off d H46 He. unfold k1_of. destruct (nval int 0 <=? u64_max).
+  - unfold run_k1s. rewrite (parse_number_s_unfold E HE). cbv zeta. rewrite H46, He.
+    destruct positive; reflexivity.
+  - unfold run_k1s. cbv zeta. rewrite rest_pkd, H46, He. apply gl32_wrapF.
+    pose proof (f64_long_s_gl positive int [] 0%Z 0%Z (pkd r off d) eq_refl) as H.
+    change (strip_trailing_zeros []) with (@nil N) in H. rewrite app_nil_r in H. exact H.
+Qed.
+
+End Glue32.
+
+(* the binary32 twin of LexGlue.lex_glue: Model/NumF32.v's parser, i.e. (by C07_f32_glue_spec) the glue with the algorithm in it *)
+Theorem lex_glue32 : forall (E : env) (n : numlit) (positive : bool) (r : bytes) (o : nat) (p : bool) (d : N),
+  tm E = TEof ->
+  num_ok n = true -> fw n r -> (length (render_abs n) < 100000000)%nat ->
+  let '(m0, e0) := lit_value n in
+  let s_end := pkd r (o + length (render_abs n)) d in
+  if int_syntax n && (m0 <=? Z.of_N u64_max)%Z then
+    (* integer literal that fits u64: parse_number's three-way answer; beyond i64 it is -(n as f32) as f64 (one rounding) *)
+    parse_integer_s E positive (mkSt (render_abs n ++ r) o p d) =
+      Ok (if positive then PU64 (Z.to_N m0) else neg_small_s (Z.to_N m0), s_end)
+  else
+    exists m e, (0 <= m)%Z /\ same_value m e m0 e0 /\
+      match glue_float32 positive m e with
+      | Some f => parse_integer_s E positive (mkSt (render_abs n ++ r) o p d) = Ok (PF64 f, s_end)
+      | None => exists i, parse_integer_s E positive (mkSt (render_abs n ++ r) o p d) = Err NumberOutOfRange i
+      end.
+Proof.
+  intros E n positive r o p d HE Hok (Hr & Hfe & Hf46) Hlen.
+  apply Nat2Z.inj_lt in Hlen. rewrite big_nat, lit_len in Hlen.
+  destruct (num_ok_inv n Hok) as (Hint & Hf & Hx).
+  unfold lit_value, frac_digits, int_syntax. cbv zeta. rewrite lit_app, lit_len.
+  destruct (nfrac n) as [f|] eqn:Hfr; destruct (nexp n) as [[[e sg] ds]|] eqn:Hex; cbn [frac_wf exp_wf] in Hf, Hx;
+    cbn [fracl expl app andb length] in *.
+  - (* fraction and exponent *)
+    destruct Hf as (Hfd & Hfne). destruct Hx as (He & Hsg & c1 & ds' & -> & Hc1 & Hd').
+    rewrite <- app_assoc. cbn [app].
+    assert (Hb : (Z.of_nat (length (nint n ++ f)) < 100000000)%Z) by (rewrite app_length; lia).
+    destruct (k1_dec_val32 E HE positive (nint n) f (e :: sgl sg ++ c1 :: ds' ++ r) (o + length (nint n)) d Hint Hfd Hfne (nd_e e _ He) Hb)
+      as (k' & Hk' & Hlit & Hrun2).
+    destruct (k2_facts k' Hk') as (H0 & _ & _ & _ & _ & Hsame).
+    exists (fst (k2_wit k')), (snd (k2_wit k') + exp_value (Some (e, sg, c1 :: ds')))%Z.
+    split; [exact H0|]. split.
+    + specialize (Hsame (exp_value (Some (e, sg, c1 :: ds')))). rewrite Hlit in Hsame. cbn [fst snd] in Hsame.
+      replace (exp_value (Some (e, sg, c1 :: ds')) - Z.of_nat (length f))%Z
+        with (- Z.of_nat (length f) + exp_value (Some (e, sg, c1 :: ds')))%Z by lia.
+      exact Hsame.
+    + rewrite (parse_integer_val32 E HE positive (nint n) _ o p d Hint (nd_dot _)), Hrun2.
+      eapply glp32_st; [apply gl32_wrapF, (k2_exp_val32 E HE); assumption|].
+      apply pkd_off. rewrite !app_length. cbn [length]. lia.
+  - (* fraction, no exponent *)
+    destruct Hf as (Hfd & Hfne). specialize (Hfe eq_refl).
+    assert (Hb : (Z.of_nat (length (nint n ++ f)) < 100000000)%Z) by (rewrite app_length; lia).
+    destruct (k1_dec_val32 E HE positive (nint n) f r (o + length (nint n)) d Hint Hfd Hfne Hr Hb) as (k' & Hk' & Hlit & Hrun2).
+    destruct (k2_facts k' Hk') as (H0 & _ & _ & _ & _ & Hsame).
+    exists (fst (k2_wit k')), (snd (k2_wit k')).
+    split; [exact H0|]. split.
+    + specialize (Hsame 0%Z). rewrite Hlit, !Z.add_0_r in Hsame. cbn [fst snd] in Hsame. cbn [exp_value].
+      replace (0 - Z.of_nat (length f))%Z with (- Z.of_nat (length f))%Z by lia. exact Hsame.
+    + rewrite (parse_integer_val32 E HE positive (nint n) _ o p d Hint (nd_dot _)), Hrun2.
+      eapply glp32_st; [apply gl32_wrapF, (k2_fin_val32 E); assumption|].
+      apply pkd_off. lia.
+  - (* exponent, no fraction *)
+    destruct Hx as (He & Hsg & c1 & ds' & -> & Hc1 & Hd').
+    rewrite <- app_assoc. cbn [app].
+    assert (Hb : (Z.of_nat (length (nint n)) < 100000000)%Z) by lia.
+    destruct (k1_nofrac (nint n) Hint Hb) as (Hk' & Hlit).
+    destruct (k2_facts _ Hk') as (H0 & _ & _ & _ & _ & Hsame).
+    exists (fst (k2_wit (k2_of (k1_of (nint n))))), (snd (k2_wit (k2_of (k1_of (nint n)))) + exp_value (Some (e, sg, c1 :: ds')))%Z.
+    split; [exact H0|]. split.
+    + specialize (Hsame (exp_value (Some (e, sg, c1 :: ds')))). rewrite Hlit in Hsame. cbn [fst snd] in Hsame.
+      rewrite app_nil_r. replace (exp_value (Some (e, sg, c1 :: ds')) - Z.of_nat 0)%Z
+        with (0 + exp_value (Some (e, sg, c1 :: ds')))%Z by lia.
+      exact Hsame.
+    + rewrite (parse_integer_val32 E HE positive (nint n) _ o p d Hint (nd_e e _ He)).
+      rewrite (k1s_exp E HE) by (cbn [hd]; exact He).
+      eapply glp32_st; [apply gl32_wrapF, (k2_exp_val32 E HE); assumption|].
+      apply pkd_off. rewrite !app_length. cbn [length]. lia.
+  - (* integer syntax *)
+    specialize (Hfe eq_refl). specialize (Hf46 eq_refl eq_refl).
+    rewrite app_nil_r, digits_val_N.
+    rewrite (parse_integer_val32 E HE positive (nint n) _ o p d Hint Hr).
+    pose proof (k1_fin_val32 E HE positive (nint n) r (o + length (nint n)) d Hf46 Hfe) as Hfin.
+    replace (length (nint n) + (0 + 0))%nat with (length (nint n)) by lia.
+    destruct (N.leb_spec (nval (nint n) 0) u64_max) as [Hle|Hgt].
+    + destruct (Z.leb_spec (Z.of_N (nval (nint n) 0)) (Z.of_N u64_max)) as [_|Hc]; [|lia].
+      rewrite N2Z.id. exact Hfin.
+    + destruct (Z.leb_spec (Z.of_N (nval (nint n) 0)) (Z.of_N u64_max)) as [Hc|_]; [lia|].
+      exists (Z.of_N (nval (nint n) 0)), 0%Z. split; [lia|]. split.
+      * cbn [exp_value]. apply same_value_refl.
+      * rewrite digits_val_N in Hfin. exact Hfin.
+Qed.
+
+(* ================================================================================================ *)
+(** * 5. the property itself for f32 targets: the glue (algorithm inside) returns the binary32 nearest (ties to even) to the
+      literal's exact value, widened; sign applied (-0.0 and underflow to +-0 included); NumberOutOfRange exactly when that
+      nearest binary32 is infinite.  The binary32 twin of LexC07.C07_model / C07_model_negint. *)
+From Coq Require Import Reals Lra.
+From SJ Require Import Proofs.FloatDefault Proofs.LexOracle32 Proofs.LexFull32 Proofs.LexC07.
+
+Theorem C07_f32_model : forall (E : env) (n : numlit) (positive : bool) (r : bytes) (o : nat) (p : bool) (d : N),
+  tm E = TEof -> num_ok n = true -> fw n r -> (length (render_abs n) < 100000000)%nat ->
+  is_float_lit n ->
+  let x := lit_real n in
+  let run := parse_integer_a E positive (mkSt (render_abs n ++ r) o p d) in
+  let s_end := pkd r (o + length (render_abs n)) d in
+  ((Rabs (RNE32 x) < bpow radix2 128)%R /\
+   exists f : b32, run = Ok (PF64 (b64_of_b32 (if positive then f else Bopp f)), s_end) /\
+                   is_finite f = true /\ Bsign f = false /\ B2R f = RNE32 x)
+  \/
+  ((bpow radix2 128 <= Rabs (RNE32 x))%R /\ exists i, run = Err NumberOutOfRange i).
+Proof.
+  intros E n positive r o p d HE Hok Hfw Hlen Hfl x run s_end.
+  unfold run. rewrite (C07_f32_glue_spec E n positive r o p d Hok Hfw Hlen).
+  pose proof (lex_glue32 E n positive r o p d HE Hok Hfw Hlen) as G.
+  unfold is_float_lit in Hfl. unfold x, lit_real.
+  destruct (lit_value n) as [m0 e0] eqn:Hlv. cbn [fst snd] in *.
+  rewrite Hfl in G. destruct G as (m & e & Hm & Hsv & G).
+  rewrite <- (same_value_real m e m0 e0 Hsv).
+  unfold glue_float32 in G. cbv zeta in G.
+  assert (Hsign : forall f : b32, (if positive then b64_of_b32 f else b64_neg (b64_of_b32 f)) = b64_of_b32 (if positive then f else Bopp f)).
+  { intros f. destruct positive; [reflexivity|]. unfold b64_neg. rewrite b64_of_b32_opp. reflexivity. }
+  destruct (Z.eq_dec m 0) as [->|Hne].
+  - left. rewrite Rmult_0_l, RNE32_0, Rabs_R0. split; [apply bpow_gt_0|].
+    rewrite rne32_nonpos in G by lia. cbn [b32_is_inf] in G.
+    exists (B754_zero false). rewrite <- Hsign. split; [exact G|]. repeat split; reflexivity.
+  - change NumF32.rne_decimal32 with Lex.rne_decimal32 in G.
+    destruct (rne_decimal32_cases m e ltac:(lia)) as [(Hfin & Hs & HR & Hlt)|(Hinf & Hge)].
+    + left. split; [exact Hlt|].
+      assert (Hni : b32_is_inf (Lex.rne_decimal32 m e) = false).
+      { destruct (Lex.rne_decimal32 m e); try reflexivity; discriminate Hfin. }
+      rewrite Hni in G. exists (Lex.rne_decimal32 m e). rewrite <- Hsign.
+      split; [exact G|]. split; [exact Hfin|]. split; [exact Hs|exact HR].
+    + right. split; [exact Hge|]. rewrite Hinf in G. cbn [b32_is_inf] in G. exact G.
+Qed.
+
+(* a negative integer literal below i64::MIN (but within u64) — where finding F17 lived — becomes -(n as f32), one rounding, widened *)
+Theorem C07_f32_model_negint : forall (E : env) (n : numlit) (r : bytes) (o : nat) (p : bool) (d : N),
+  tm E = TEof -> num_ok n = true -> fw n r -> (length (render_abs n) < 100000000)%nat ->
+  int_syntax n = true -> (fst (lit_value n) <= Z.of_N u64_max)%Z ->
+  (0 <=? wrap_i64 (- wrap_i64 (fst (lit_value n))))%Z = true ->
+  exists f : b32,
+    parse_integer_a E false (mkSt (render_abs n ++ r) o p d) = Ok (PF64 (b64_of_b32 (Bopp f)), pkd r (o + length (render_abs n)) d) /\
+    is_finite f = true /\ Bsign f = false /\ B2R f = RNE32 (IZR (fst (lit_value n))).
+Proof.
+  intros E n r o p d HE Hok Hfw Hlen Hint Hle Hw.
+  rewrite (C07_f32_glue_spec E n false r o p d Hok Hfw Hlen).
+  pose proof (lex_glue32 E n false r o p d HE Hok Hfw Hlen) as G.
+  destruct (lit_value n) as [m0 e0] eqn:Hlv. cbn [fst snd] in *.
+  rewrite Hint in G. replace (m0 <=? Z.of_N u64_max)%Z with true in G by (symmetry; apply Z.leb_le; exact Hle).
+  cbn [andb] in G.
+  assert (Hm0 : (0 <= m0)%Z).
+  { assert (H : m0 = digits_val (nint n ++ frac_digits n) 0) by (unfold lit_value in Hlv; congruence).
+    rewrite H, digits_val_N. lia. }
+  unfold neg_small_s in G. rewrite Z2N.id in G by exact Hm0. rewrite Hw in G.
+  exists (Lex.b32_of_Z m0). split; [|].
+  - rewrite G. unfold b64_neg. rewrite b64_of_b32_opp. reflexivity.
+  - destruct (Z.eq_dec m0 0) as [->|Hnz].
+    + change (Lex.b32_of_Z 0) with (B754_zero false : b32). cbn [is_finite Bsign B2R]. rewrite RNE32_0. auto.
+    + rewrite cast32_oracle by lia.
+      destruct (rne_decimal32_cases m0 0 ltac:(lia)) as [(Hfin & Hs & HR & _)|(_ & Hge)].
+      * rewrite HR. cbn [powerRZ]. rewrite Rmult_1_r. auto.
+      * exfalso. cbn [powerRZ] in Hge. rewrite Rmult_1_r in Hge.
+        assert (Hb : (RNE32 (IZR m0) <= bpow radix2 64)%R).
+        { apply RNE32_le_generic; [apply format_bpow32; lia|]. rewrite bpow_IZR by lia. apply IZR_le.
+          unfold u64_max in Hle. change (2 ^ 64)%Z with 18446744073709551616%Z. lia. }
+        assert (H0 : (0 <= RNE32 (IZR m0))%R).
+        { apply RNE32_ge_generic; [apply generic_format_0|]. apply IZR_le. exact Hm0. }
+        rewrite Rabs_pos_eq in Hge by exact H0.
+        assert (bpow radix2 64 < bpow radix2 128)%R by (apply bpow_lt; lia). lra.
+Qed.
+
+(* serde's f32 visitor narrows with `as f32`: it recovers exactly the binary32 the glue widened, so the typed model's f32 datum
+   (reported widened again) is that binary32 *)
+Theorem visit_f32_widened : forall (g : b32) (s : st), visit_f32 (PF64 (b64_of_b32 g)) s = TOk (dfloat (b64_of_b32 g), s).
+Proof. intros g s. cbn [visit_f32]. rewrite b32_of_b64_of_b32. reflexivity. Qed.
+
+(* ---- non-vacuity / regression: the F17 literal and an overflow, by computation ---- *)
+Open Scope N_scope.
+Definition Efr32 : env := mkEnv RSlice TEof (mkCfg false true false false).
+Definition bits_run (r : res (pnum * st)) : option (N * nat) :=
+  match r with Ok (PF64 f, s) => Some (bits_of_b64 f, off s) | _ => None end.
+Example glue_examples :
+  (* -18446744073709551615 : -(2^64) = 0xc3f0000000000000 as f64, 0xdf800000 as f32; both parsers *)
+  bits_run (parse_integer_a Efr32 false (mkSt [49;56;52;52;54;55;52;52;48;55;51;55;48;57;53;53;49;54;49;53] 1 false 128))
+    = Some (14118784831806504960, 21%nat) /\
+  bits_run (parse_integer_s Efr32 false (mkSt [49;56;52;52;54;55;52;52;48;55;51;55;48;57;53;53;49;54;49;53] 1 false 128))
+    = Some (14118784831806504960, 21%nat) /\
+  (* 3.4028236e38 : out of range for f32 (it is not for f64) *)
+  (exists i, parse_integer_a Efr32 true (mkSt [51;46;52;48;50;56;50;51;54;101;51;56] 0 false 128) = Err NumberOutOfRange i).
+Proof. split; [vm_compute; reflexivity|]. split; [vm_compute; reflexivity|]. eexists. vm_compute. reflexivity. Qed.
+
+Print Assumptions parse_integer_glue.
+Print Assumptions C07_f32_glue_spec.
+Print Assumptions deserialize_f32_glue.
+Print Assumptions from_input_typed_f32_glue.
+Print Assumptions lex_glue32.
+Print Assumptions C07_f32_model.
+Print Assumptions C07_f32_model_negint.
+Print Assumptions visit_f32_widened.
